@@ -136,6 +136,13 @@ func genOptions(r *gen.Rand, lim optLimits) *optSet {
 			add(parquet.DefaultEncodingFor(kind, enc), "enc[%s]=%s", kind, enc)
 		}
 	}
+	if r.P(15) {
+		// dictionary encoding for every kind (tags excepted)
+		for _, kind := range allKinds {
+			o.Encodings[kind] = &parquet.RLEDictionary
+		}
+		add(parquet.DefaultEncoding(&parquet.RLEDictionary), "enc[*]=RLE_DICTIONARY")
+	}
 	if r.P(40) {
 		o.DictMax = gen.Pick(r, []int64{1, 64, 1024})
 		add(parquet.DictionaryMaxBytes(o.DictMax), "dictmax=%d", o.DictMax)
